@@ -17,8 +17,8 @@
 #define M_VERIF_LOOPSPEC_pool_spawn \
     __CPROVER_assigns(i, err, g_thslot, g.create_calls, g.linsert_calls, g_threads->len, g_alloc_calls, g_last_alloc, g_free_calls, g_free_arg, g_free_arg0) \
     __CPROVER_loop_invariant(0 <= i && i <= num && g.create_calls == g_c0 + (size_t)i && g_alloc_calls == g_ac0 + (size_t)i && g_oom_mask == 0) \
-    __CPROVER_loop_invariant(err == 0 ? ((size_t)i <= g_fail_at && g_threads->len == g_l0 + (size_t)i && g_free_calls == g_fc0) \
-                                      : ((size_t)i == g_fail_at + 1 && err == g_create_err && g_threads->len == g_l0 + g_fail_at && g_free_calls == g_fc0 + 1)) \
+    __CPROVER_loop_invariant(err == 0 ? ((size_t)i <= g_fail_at && (size_t)i <= g_oom_at && g_threads->len == g_l0 + (size_t)i && g_free_calls == g_fc0) \
+                                      : ((size_t)i == g_fail_at + 1 && g_fail_at < g_oom_at && err == g_create_err && g_threads->len == g_l0 + g_fail_at && g_free_calls == g_fc0 + 1)) \
     __CPROVER_loop_invariant(g.linsert_calls - 0 == g.linsert_calls && g_threads->len - g_l0 == g.linsert_calls - g_li0) \
     __CPROVER_decreases(num - i)
 #endif
@@ -44,7 +44,7 @@ struct _list_itr *g_lit; pthread_t g_thobj; size_t g_j0;
 typedef struct { size_t lnew_calls, qnew_calls, minit_calls, cinit_calls, tpfree_calls; int tpfree_state; size_t detach_calls, linsert_calls; size_t waitpool_calls, conddestroy_calls, mutexdestroy_calls, qfree_calls, lfree_calls, qclear_calls; int waitpool_mode; size_t lock_calls, unlock_calls, wait_calls, signal_calls, bcast_calls, addthr_calls, enq_calls, deq_calls, task_calls, join_calls, create_calls; int addthr_num; void *enq_arg; m_queue_t *enq_q; } ghost_t;
 ghost_t g; bool g_lock_held; int g_lock_ret, g_addthr_ret; size_t g_tc0, g_dq0, g_fc0; void *g_task_arg;
 #include "public/module/thpool/thpool.h"
-m_thpool_t *g_pool, *g_poolref; m_queue_t *g_tasks; m_list_t *g_threads; int g_wait_ret; unsigned g_fail_stage; pthread_t g_thslot; size_t g_fail_at, g_c0, g_l0, g_ac0, g_li0; int g_create_err;
+m_thpool_t *g_pool, *g_poolref; m_queue_t *g_tasks; m_list_t *g_threads; int g_wait_ret; unsigned g_fail_stage; pthread_t g_thslot; size_t g_fail_at, g_oom_at, g_c0, g_l0, g_ac0, g_li0; int g_create_err;
 #include "thpool/thpool.c"       /* the real translation unit, unmodified */
 thpool_task_t *g_task_rec;
 static inline bool v_q_ok_fn(const struct _queue *q) { return q != NULL && V_RW_OK(q, sizeof(struct _queue)) && q->len < ((size_t)1 << 60); }
@@ -89,16 +89,17 @@ void h_pool_length(void) {
 #ifdef V_POOL_SPAWN
 /* DFCC does not allow allocation / release inside a loop that carries a loop contract: the thread slots are handed out from one static object and only counted
  * (that a slot is requested per attempt and given back exactly when the attempt failed is what is checked) */
-static void *v_calloc_count(size_t n, size_t sz) { (void)n; (void)sz; g_alloc_calls++; g_last_alloc = &g_thslot; return &g_thslot; }
+/* the k-th slot request of the call (0-based) fails iff k == g_oom_at */
+static void *v_calloc_count(size_t n, size_t sz) { (void)n; (void)sz; bool oom = g_alloc_calls - g_ac0 == g_oom_at; g_alloc_calls++; if (oom) return NULL; g_last_alloc = &g_thslot; return &g_thslot; }
 static void v_free_count2(void *p) { if (g_free_calls == 0) g_free_arg0 = p; g_free_calls++; g_free_arg = p; }
 void h_pool_spawn(void) {
     build_pool(); memhook._calloc = v_calloc_count; memhook._free = v_free_count2;
     V_ASSUME(vin_max_threads + vin_nthreads < 256 && vin_addthr_ret > 0);
-    g_fail_at = vin_ntasks; g_create_err = vin_addthr_ret; g_oom_mask = 0;
+    g_fail_at = vin_ntasks; g_oom_at = vin_running; g_create_err = vin_addthr_ret; g_oom_mask = 0;
     g_c0 = g.create_calls; g_l0 = g_threads->len; g_fc0 = g_free_calls; g_ac0 = g_alloc_calls; g_li0 = g.linsert_calls;
     int r = add_threads(g_pool, vin_max_threads);
     V_COVER("spawn-all-of-many", r == 0 && vin_max_threads == 200 && g_threads->len == vin_nthreads + 200); V_COVER("spawn-third-fails", r != 0 && vin_ntasks == 2 && vin_max_threads == 5 && g_threads->len == vin_nthreads + 2);
-    V_COVER("spawn-none", vin_max_threads == 0); V_COVER("spawn-detached", (vin_pflags & M_THPOOL_DETACHED) && r == 0 && vin_max_threads == 1);
+    V_COVER("spawn-none", vin_max_threads == 0); V_COVER("spawn-second-slot-unavailable", r == ENOMEM && vin_running == 1 && vin_max_threads == 4 && vin_ntasks > 1 && g_threads->len == vin_nthreads + 1); V_COVER("spawn-detached", (vin_pflags & M_THPOOL_DETACHED) && r == 0 && vin_max_threads == 1);
     V_CANARY();
 }
 #endif
